@@ -243,3 +243,16 @@ Definition py_vecmat (v : list Q) (m : list (list Q)) : res (list Q) :=
   if Nat.eqb (List.length v) (List.length m)
   then Ok (map (fun j => Qsum (map (fun p => (fst p * nth j (snd p) 0)%Q) (combine v m))) (seq 0 (match m with [] => 0%nat | r :: _ => List.length r end)))
   else Raise ValueError.
+
+(* dictionaries from strings to lists of ints; d[k] raises KeyError (a LookupError; rendered as IndexError's sibling ValueError is wrong: its own code) *)
+Definition dictl_put (d : list (String.string * list Z)) (k : String.string) (v : list Z) : list (String.string * list Z) :=
+  (k, v) :: filter (fun p => negb (String.eqb (fst p) k)) d.
+Definition py_dictl_get (d : list (String.string * list Z)) (k : String.string) : res (list Z) :=
+  match find (fun p => String.eqb (fst p) k) d with Some p => Ok (snd p) | None => Raise NameError end.
+(* sorted(l) for a list of strings (duplicates kept) *)
+Fixpoint sinsert_dup (s : String.string) (l : list String.string) : list String.string :=
+  match l with
+  | [] => [s]
+  | x :: r => if String.leb s x then s :: l else x :: sinsert_dup s r
+  end.
+Definition py_sorted_strings (l : list String.string) : list String.string := fold_right sinsert_dup [] l.
